@@ -249,6 +249,18 @@ def _gen_AC(ctx, pl):
     rng = ctx.rng
     g = ctx.nprng()
     r = rng.random()
+    if r < 0.12:
+        # poles a hair on either side of the stability boundary (rotation-scaling blocks of radius 1 +- 1e-9..1e-12, mixed by an
+        # orthogonal matrix): "non-positive real part" is an exact comparison, not one up to a tolerance
+        nb = rng.randint(1, 2)
+        k = 2 * nb
+        D = np.zeros((k, k))
+        for b in range(nb):
+            rad = 1.0 + rng.choice([-1.0, 1.0]) * 10.0 ** -rng.uniform(9.0, 12.0)
+            th = rng.uniform(0.3, 2.8)
+            D[2 * b : 2 * b + 2, 2 * b : 2 * b + 2] = rad * np.array([[math.cos(th), math.sin(th)], [-math.sin(th), math.cos(th)]])
+        Q, _ = np.linalg.qr(g.standard_normal((k, k)))
+        return Q @ D @ Q.T, g.standard_normal((rng.randint(1, 3), k)), "near_boundary"
     if r < 0.45:  # a companion pair from rmfd2ac
         m, l, n = rng.randint(1, 3), rng.randint(1, 3), rng.randint(2, 4)
         Ad = g.standard_normal((n, m, m))
@@ -284,9 +296,12 @@ def _corr_ac2mp(ctx, pl):
         if len(store) != 1:
             ctx.corr("ac2mp_poly", False, {"note": "eig call count"}, None, len(store), None)
             continue
-        _, lam_d, V = store[0]
+        Ae, lam_d, V = store[0]
         lam_d = np.asarray(lam_d, complex)
         V = np.asarray(V, complex)
+        # the recorded eigen-record satisfies the contract the pole-table theorems assume: A V = V diag(lambda) to rounding
+        if V.size:
+            ctx.contract("eig", np.abs(np.asarray(Ae, complex) @ V - V * lam_d[None, :]).max() / max(np.abs(Ae).max(), 1e-300), 1e-8, "A V = V diag(lambda)")
         logv = np.log(lam_d)
         invdt = 1 / dt
         tau = -(nxseg - 1) / np.log(0.01)
@@ -811,6 +826,32 @@ def oracle(ctx, scale):
         B = g.standard_normal((n + 1, Nref, Nch))
         Nf = 4 * (n + 1) + rng.randint(0, 30)
         _judge(ctx, pl, A, B, 10 ** rng.uniform(-3, 0), rng.choice([-1, 1]), Nf, rng.choice([0, 1]), "prescribed-roots")
+    # the stability boundary is exact: poles of radius 1 + delta (delta = +-1e-9..1e-11, far above the rounding of a
+    # well-conditioned eigenproblem) are reported iff delta <= 0
+    for _ in range(ctx.n(40, 400) * scale):
+        g = ctx.nprng()
+        nb = rng.randint(1, 3)
+        k = 2 * nb
+        D = np.zeros((k, k))
+        deltas = []
+        for b in range(nb):
+            d_ = rng.choice([-1.0, 1.0]) * 10.0 ** -rng.uniform(9.0, 11.0)
+            deltas.append(d_)
+            th = rng.uniform(0.3, 2.8)
+            D[2 * b : 2 * b + 2, 2 * b : 2 * b + 2] = (1.0 + d_) * np.array([[math.cos(th), math.sin(th)], [-math.sin(th), math.cos(th)]])
+        Q, _ = np.linalg.qr(g.standard_normal((k, k)))
+        A = Q @ D @ Q.T
+        C = g.standard_normal((rng.randint(1, 3), k))
+        dt = 10 ** rng.uniform(-3, 0)
+        fn_, xi_, phi_, lam_ = pl.ac2mp_poly(A.copy(), C.copy(), dt, "per", 256)
+        ctx.oracle_cases += 1
+        ctx.count("oracle_near_boundary")
+        want = 2 * sum(1 for d_ in deltas if d_ <= 0)
+        got = int(np.sum(~np.isnan(np.asarray(fn_, float))))
+        if got != want:
+            ctx.violation("stability-boundary", f"ac2mp_poly reports {got} poles; the matrix has {want} eigenvalues with non-positive real part of log(lambda) "
+                          f"(radii 1 + {deltas})", {"A": A.tolist(), "C": C.tolist(), "dt": dt, "deltas": deltas}, observed=got, expected=want)
+            return
     _class_oracle(ctx, pl, scale)
 
 
